@@ -202,3 +202,49 @@ func propC10(t *rapid.T, large bool) {
 		}
 	}
 }
+
+// TestC10Huge: the wheelchair_boarding column (mixed and all-blank spelling, inheritance on and off) on a feed of 70003 stops -
+// more than 65,536, not a multiple of any chunk size - most of them children of stations.
+func TestC10Huge(outerT *testing.T) {
+	fail := ""
+	defer func() {
+		if fail != "" {
+			outerT.Fatalf("%s", fail)
+		}
+	}()
+	rapid.Check(outerT, func(t *rapid.T) {
+		o := sgen.DefaultGenOpts()
+		o.MinTrips, o.MinStopTimes = 1, 1
+		o.ExplicitDefaults = rapid.Bool().Draw(t, "explicitElsewhere")
+		base, _ := sgen.GenFeed(t, o)
+		// a station with a value and a platform under it, so that the inflated copies have something to inherit
+		base.Stops = append(base.Stops,
+			sgen.Stop{ID: "huge-station", Name: "Station", LocType: 1, Wheelchair: rapid.SampledFrom([]int{1, 2}).Draw(t, "stationValue")},
+			sgen.Stop{ID: "huge-platform", Name: "Platform", LocType: -1, Parent: "huge-station", Wheelchair: 1})
+		f := sgen.InflateFeed(base, 70003)
+		col := c10Find("stops.txt", "wheelchair_boarding")
+		maskSeed := rapid.Uint64().Draw(t, "mixMask")
+		for _, spelling := range []string{"mixed", "blank"} {
+			for _, inherit := range []bool{true, false} {
+				g := cloneFeed(f)
+				for i := range g.Stops {
+					if g.Stops[i].LocType == 1 && spelling == "mixed" {
+						continue // stations keep their value in the mixed spelling
+					}
+					if spelling != "mixed" || (maskSeed>>(uint(i)%64))&1 == 1 || i >= 65536 {
+						col.Blank(g, i)
+					}
+				}
+				c := CaseC10{Feed: g, File: col.File, Column: col.Column, Spelling: spelling, Inherit: inherit}
+				c.Env = genEnv(t)
+				c10Rec.Eval(fmt.Sprintf("huge:stops=%d/%s/inherit=%v", len(g.Stops), spelling, inherit))
+				c10Rec.NontrivialCase(vt.Fingerprint([]any{len(g.Stops), spelling, inherit, maskSeed}), func() any {
+					return map[string]any{"stops": len(g.Stops), "spelling": spelling, "inherit": inherit}
+				})
+				if msg := vt.Try(c10Rec, c, checkC10); msg != "" && fail == "" {
+					fail = msg
+				}
+			}
+		}
+	})
+}
